@@ -100,7 +100,7 @@ def gen(rng, n_cases, classes=("rnc", "constr")):
         n_survive = None if k == 0 else (n + int(rng.randint(1, 4)) if k == 1 else int(rng.randint(1, n + 1)))
         # history of the operator object before the recorded call: none / used on a population of another
         # problem (other constraint layout, other size) / used on the same population with a smaller quota
-        warm = ["none", "none", "other-problem", "same-pop", "rival-metric"][rng.randint(5)]
+        warm = ["none", "none", "other-problem", "same-pop", "rival-metric", "lent"][rng.randint(6)]
         # documented keyword of pymoo's Survival.do: positions instead of the sub-population
         ret_idx = bool(rng.randint(6) == 0)
         # individuals carrying a feasibility tolerance (pymoo's AdaptiveEpsilonConstraintHandling sets one)
@@ -121,8 +121,13 @@ def gen(rng, n_cases, classes=("rnc", "constr")):
             else:
                 F = np.where(rng.random_sample(F.shape) < 0.2, np.inf, F)
             inf_F = True
-        yield {"cls": cls, "metric": metric, "n_survive": n_survive, "F": F, "G": G, "H": H, "warm": warm, "inf_F": inf_F, "ret_idx": ret_idx, "cv_eps": cv_eps,
-               "seed": int(rng.randint(2**31 - 1))}
+        # individuals that went through a survival before (another population, another generation): they still carry the
+        # `rank` / `crowding` (and `cv_rank`) attributes written then
+        stale = bool(rng.randint(4) == 0)
+        # the quota as it comes out of NumPy arithmetic (np.int64 / np.int32 scalar) instead of a Python int
+        ns_np = ["", "", "", "int64", "int32"][rng.randint(5)]
+        yield {"ns_np": ns_np, "cls": cls, "metric": metric, "n_survive": n_survive, "F": F, "G": G, "H": H, "warm": warm, "inf_F": inf_F, "ret_idx": ret_idx, "cv_eps": cv_eps,
+               "stale": stale, "seed": int(rng.randint(2**31 - 1))}
 
 
 def case_from_record(rec):
@@ -182,17 +187,27 @@ class Oracles:
 def run(case, replay=None):
     import pymoo.core.survival as pcs
     from pymoode.survival.rank_and_crowding import rnc
-    rec = Record(NAME, dict({k: case[k] for k in ("cls", "metric", "n_survive", "seed")}, warm=case.get("warm", "none"), inf_F=bool(case.get("inf_F")), ret_idx=bool(case.get("ret_idx")),
+    rec = Record(NAME, dict({k: case[k] for k in ("cls", "metric", "n_survive", "seed")}, warm=case.get("warm", "none"), inf_F=bool(case.get("inf_F")), ret_idx=bool(case.get("ret_idx")), ns_np=case.get("ns_np") or "",
                             cv_eps=float(case.get("cv_eps") or 0.0)),
                  {k: np.array(case[k], dtype=float) for k in ("F", "G", "H")})
     F, G, H = rec.inp["F"], rec.inp["G"], rec.inp["H"]
     n = len(F)
+    if case.get("ns_np") and case["n_survive"] is not None:
+        case = dict(case, n_survive=getattr(np, case["ns_np"])(case["n_survive"]))
+        rec.tags.add("numpy-integer-quota")
     prob, pop = make_pop(F, G, H)
     if case.get("cv_eps"):
         for ind in pop:
             ind.config = dict(ind.config)
             ind.config["cv_eps"] = float(case["cv_eps"])
         rec.tags.add("cv_eps>0")
+    if case.get("stale"):
+        rs_ = np.random.RandomState(case["seed"] % 7919)
+        pop.set("rank", rs_.randint(0, 4, size=n))
+        pop.set("crowding", rs_.random_sample(n))
+        pop.set("cv_rank", rs_.randint(0, 3, size=n))
+        rec.tags.add("stale-attributes")
+    rec.cfg["stale"] = bool(case.get("stale"))
     snap = {k: np.array(pop.get(k), copy=True) for k in ("X", "F", "G", "H")}
     rec.inp["CV"] = np.array(pop.get("CV"), dtype=float).reshape(n)
     rec.inp["feas"] = np.array(pop.get("feasible"), dtype=bool).reshape(n)
@@ -226,6 +241,18 @@ def run(case, replay=None):
                         s2.do(prob2, pop2)
                     else:
                         s2.do(prob2, pop2, n_survive=case["n_survive"])
+                elif warm == "lent":
+                    # the operator object was handed to the constructor of another survival (the deprecated `ranking=`
+                    # keyword of ConstrRankAndCrowding, still accepted), which was then used on its own population
+                    import warnings as _w
+                    with _w.catch_warnings():
+                        _w.simplefilter("ignore")
+                        if case["cls"] == "rnc":
+                            s3 = rnc.ConstrRankAndCrowding(crowding_func=case["metric"], ranking=s)
+                        else:
+                            s3 = rnc.ConstrRankAndCrowding(crowding_func=case["metric"], ranking=s.ranking)
+                    prob2, pop2 = make_pop(F, G, H)
+                    s3.do(prob2, pop2, n_survive=max(1, n // 2))
                 elif warm == "other-problem":
                     r2 = np.random.RandomState(case["seed"] % 9973)
                     n2 = n + 3
@@ -334,8 +361,12 @@ def compare(rec, ans):
     if list(rec.out["surv"]) != surv:
         out.append("survivors differ: impl %s model %s" % (list(rec.out["surv"]), surv))
     # rank attribute: compared on the individuals handed to _do (the model writes -1 elsewhere)
-    if list(rec.out["rank"]) != ranks:
-        out.append("rank attributes differ: impl %s model %s" % (list(rec.out["rank"]), ranks))
+    got = list(rec.out["rank"])
+    if rec.cfg.get("stale"):
+        # individuals the operator does not rank keep whatever they carried before the call
+        got = [g if m >= 0 else -1 for g, m in zip(got, ranks)]
+    if got != ranks:
+        out.append("rank attributes differ: impl %s model %s" % (got, ranks))
     return out
 
 
